@@ -139,8 +139,11 @@ def run(ctx):
         else:
             ctx.holds(r2, site + " inputs", f"{len(rec['fits'])} fits, {len(rec['ts'])} statistics with the calculator's inputs")
     # sample shape
-    ss = [n for n in ast.walk(dm.node) if isinstance(n, ast.Assign) and any(isinstance(t, ast.Name) and t.id == "sample_shape" for t in n.targets)]
-    if ss and "ntoys" in A.unparse(ss[0].value):
+    from ..dep import Deps
+    ddm = Deps(dm.node)
+    scalls = [c for c in A.calls_in(dm.node) if A.call_attr(c) == "sample" and c.args]
+    ss = scalls
+    if scalls and all(ddm.depends_on(c.args[0], "self.ntoys") for c in scalls):
         ctx.holds(r2, f"{CALC}::ToyCalculator.distributions", "sample_shape = (ntoys,)")
     else:
         ctx.violated(r2, dm, "sample_shape", "the number of toys drawn is not self.ntoys", node=ss[0] if ss else dm.node)
@@ -158,7 +161,8 @@ def run(ctx):
         ctx.unrecognised(r2, pvs, "pvalues", str(e))
     # teststatistic uses the observed data at poi_test
     tm = tc.methods["teststatistic"]
-    cs = [c for c in A.calls_in(tm.node) if isinstance(c.func, ast.Name) and c.func.id == "teststat_func"]
+    tsnames = {nm for n in ast.walk(tm.node) if isinstance(n, ast.Assign) and isinstance(n.value, ast.Call) and A.call_attr(n.value) == "get_test_stat" for nm in A.assigned_names(n.targets[0])}
+    cs = [c for c in A.calls_in(tm.node) if isinstance(c.func, ast.Name) and c.func.id in tsnames]
     if cs and len(cs[0].args) >= 2 and "poi_test" in A.names_loaded(cs[0].args[0]) and A.dotted(cs[0].args[1]) == "self.data":
         ctx.holds(r2, f"{CALC}::ToyCalculator.teststatistic", "observed statistic at poi_test on self.data")
     else:
